@@ -65,8 +65,11 @@ type Obligation struct {
 	Src        string
 	Pos        string
 	Fn         string
-	ExpectSat  bool // vacuity probe: the query must NOT be unsat
-	Extra      []*T // additional assumptions local to this obligation
+	ExpectSat  bool            // vacuity probe: the query must NOT be unsat
+	Extra      []*T            // additional assumptions local to this obligation
+	body       *Body           // body the obligation is located in
+	blk        *ssa.BasicBlock // block the obligation is located in
+	loopRole   *Loop           // the loop whose invariant this obligation establishes/preserves
 	Abstracted bool
 }
 
@@ -106,8 +109,16 @@ type FT struct {
 	invHit        map[*Clause]bool
 	allTagsC      []string
 	namedLits     map[string]string
+	invFacts      []invFact       // loop-invariant assumptions (excluded from obligations that must not lean on them)
 	refSources    map[string]bool // region|selector path of references that contracts dereference
 	nq            int
+}
+
+// invFact marks facts[idx] as the assumption of loop lp's invariant at its head.
+type invFact struct {
+	idx  int
+	lp   *Loop
+	body *Body
 }
 
 type writeRec struct {
@@ -273,7 +284,9 @@ type Body struct {
 	curBlock  *ssa.BasicBlock
 	parent    *Body
 	curState  State
-	tupleRefs []*T // Ref-sorted components of tuple values
+	callBlk   *ssa.BasicBlock // block of the parent body where this body was inlined
+	presBlk   *ssa.BasicBlock // source block of the back edge whose preservation is being generated
+	tupleRefs []*T            // Ref-sorted components of tuple values
 }
 
 type mapIter struct {
